@@ -7,7 +7,7 @@ from . import common as C
 PKINDS = ['pthread', 'pprocess', 'premote']
 
 
-def gen_pool_case(ctx, rng, i, tag, retry=None, enqueue_fn_ok=True, return_results=None, survivor=None, directed_late=False):
+def gen_pool_case(ctx, rng, i, tag, retry=None, enqueue_fn_ok=True, return_results=None, survivor=None, directed_late=False, double_death=False):
     from harness.check import draw_env
     nw = rng.randrange(1, 4)
     remote = rng.random() < 0.35
@@ -44,6 +44,16 @@ def gen_pool_case(ctx, rng, i, tag, retry=None, enqueue_fn_ok=True, return_resul
         poison = []
         faults = [{'kind': 'sigkill', 'any_thread': True, 'qualname': 'Pool.run.<locals>.handle_new_result',
                    'occ': rng.randrange(1, 7), 'target': 'frame-local:worker'}]
+    if double_death:
+        # directed family: a second worker is killed exactly while the pool handles the death of the first one
+        nw = 3
+        workers = [{'kind': rng.choice(['pprocess', 'pprocess', 'premote'] if remote else ['pprocess']), 'fail_after': None,
+                    'probe': rng.random() < 0.5} for _ in range(nw)]
+        workers[rng.randrange(nw)]['fail_after'] = rng.choice([0, 1])
+        inputs = rng.sample(range(1, 60), rng.randrange(2, 6))
+        poison = []
+        faults = [{'kind': 'sigkill', 'any_thread': True, 'qualname': rng.choice(['Pool.run.<locals>.handle_death', 'Pool.run.<locals>.get_next_idle_worker']),
+                   'occ': rng.randrange(1, 3), 'target': 'victim', 'target_index': rng.randrange(nw)}]
     if survivor is True:
         faults = [f for f in faults if False]
     refuse = None
